@@ -613,9 +613,17 @@ class SimSocket(_Named):
         if self.closed:
             raise OSError(9, 'Bad file descriptor')
         if not self.rx and not (self.peer is None or self.peer.closed):
-            _sync('socket.recv', self.simname, pred=lambda: len(self.rx) > 0 or self.peer.closed or self.closed)
+            tmo = getattr(self, '_timeout', None)
+            if tmo is not None and tmo <= 0:
+                raise BlockingIOError(11, 'Resource temporarily unavailable')
+            # a socket with a timeout (settimeout) waits like any timed wait: the timeout may expire however long the peer
+            # takes - "however long any one thread is delayed" includes "longer than any timeout" (Kernel.eager_timeouts)
+            timed = _sync('socket.recv', self.simname, pred=lambda: len(self.rx) > 0 or self.peer.closed or self.closed,
+                          timeout_ok=tmo is not None, yielding=tmo is not None)
             if self.closed:
                 raise OSError(9, 'Bad file descriptor')
+            if timed and not self.rx and not self.peer.closed:
+                raise TimeoutError('timed out')
         out = bytes(self.rx[:n])
         del self.rx[:n]
         return out
@@ -632,7 +640,13 @@ class SimSocket(_Named):
         self.close()
 
     def settimeout(self, t):
-        pass
+        self._timeout = t
+
+    def gettimeout(self):
+        return getattr(self, '_timeout', None)
+
+    def setblocking(self, flag):
+        self._timeout = None if flag else 0.0
 
     def setsockopt(self, *a):
         pass
